@@ -1104,6 +1104,10 @@ where
                 trace!("timer timed out; closing connection");
                 this.flags.insert(Flags::SHUTDOWN);
 
+                // the expired timer would complete again on every later poll and start the
+                // shutdown timeout afresh each time
+                this.ka_timer.clear(line!());
+
                 if let Some(deadline) = this.config.client_disconnect_deadline() {
                     // start shutdown timeout if enabled
                     this.shutdown_timer
